@@ -670,9 +670,14 @@ Definition make_object_path (lhs : ustring) : result apath :=
 Record cfg := Cfg {
   neg_eq : bool; neg_order : bool; neg_set : bool; neg_like : bool;
   neg_regex : bool; neg_subset : bool; neg_superset : bool;
-  within_float : bool }.     (* WithinQualifier accepts a FloatConstant *)
-Definition pinned : cfg := Cfg false false false false false false false false.
-Definition repaired : cfg := Cfg true true true true true true true true.
+  within_float : bool;       (* WithinQualifier accepts a FloatConstant *)
+  float_pos : bool;          (* FloatConstant.__str__ never uses exponent notation *)
+  key_quote : bool;          (* quote_if_needed quotes every name that is not an identifier of the grammar *)
+  hex_empty : bool;          (* HexConstant accepts h'' *)
+  rt_append : bool;          (* a third and later operand of an AND/OR chain updates root_types *)
+  star_quoted : bool }.      (* a quoted key step followed by [*] keeps its quoted text as the name *)
+Definition pinned : cfg := Cfg false false false false false false false false false false false false false.
+Definition repaired : cfg := Cfg true true true true true true true true true true true true true.
 
 (* ------------------------------------------------------------------ *)
 (** * Constants from tokens (visitTerminal and the constructors it calls) *)
@@ -716,9 +721,9 @@ Definition py_strptime (s : ustring) : option tsval :=
   end.
 
 (* HexConstant(text, from_parse_tree=True):  re.match("^h'(([a-fA-F0-9]{2})+)'$") *)
-Definition mk_hex_from_tree (s : ustring) : result aconst :=
+Definition mk_hex_from_tree (g : cfg) (s : ustring) : result aconst :=
   match prefixed_body 104 s with
-  | Some body => if negb (is_nil body) && hex_pairs body then Ok (CHex body) else Raise ValueError
+  | Some body => if (hex_empty g || negb (is_nil body)) && hex_pairs body then Ok (CHex body) else Raise ValueError
   | None => Raise ValueError
   end.
 
@@ -740,13 +745,13 @@ Inductive vres :=
 | VList (l : list vres).
 
 (* visitTerminal *)
-Definition visit_terminal (t : token) : result vres :=
+Definition visit_terminal (g : cfg) (t : token) : result vres :=
   match tk t with
   | KIntPos | KIntNeg =>
       match py_int (tx t) with Some z => Ok (VConst (CInt z)) | None => Raise ValueError end
   | KFloatPos | KFloatNeg =>
       match py_float (tx t) with Some f => Ok (VConst (CFloat f)) | None => Raise ValueError end
-  | KHex => c <- mk_hex_from_tree (tx t) ;; Ok (VConst c)
+  | KHex => c <- mk_hex_from_tree g (tx t) ;; Ok (VConst c)
   | KBinary => c <- mk_binary_from_tree (tx t) ;; Ok (VConst c)
   | KString =>
       if starts_with_quote (tx t) && last_is (tx t) c_quote
@@ -788,8 +793,12 @@ Definition print_string_const (v : ustring) (needs_quote : bool) : ustring :=
 Definition print_string (s : ustring) : ustring := print_string_const s true.
 
 (* quote_if_needed on a str *)
-Definition quote_if_needed (x : ustring) : ustring :=
-  if mem_N c_hyphen x && negb (starts_with_quote x) then [c_quote] ++ x ++ [c_quote] else x.
+Definition quote_if_needed (g : cfg) (x : ustring) : ustring :=
+  if key_quote g then
+    (* not x.startswith("'") and (not identifier or keyword) *)
+    if negb (starts_with_quote x) && negb (ident_ok x) then [c_quote] ++ x ++ [c_quote] else x
+  else
+    if mem_N c_hyphen x && negb (starts_with_quote x) then [c_quote] ++ x ++ [c_quote] else x.
 
 Definition pad2 (n : N) : ustring := [48 + n / 10 mod 10; 48 + n mod 10].
 Definition pad4 (n : N) : ustring := [48 + n / 1000 mod 10; 48 + n / 100 mod 10; 48 + n / 10 mod 10; 48 + n mod 10].
@@ -810,9 +819,9 @@ Definition f_decpt (f : fval) : Z :=
   | ip, _ => Z.of_nat (List.length ip)
   end.
 Definition float_plain (f : fval) : bool := ((-4 <? f_decpt f) && (f_decpt f <=? 16))%Z.
-Definition print_float (f : fval) : ustring :=
+Definition print_float (g : cfg) (f : fval) : ustring :=
   (if f_neg f then [45] else []) ++
-  if float_plain f then or0 (f_ip f) ++ [46] ++ or0 (f_fp f)
+  if float_pos g || float_plain f then or0 (f_ip f) ++ [46] ++ or0 (f_fp f)
   else
     let sig := rstrip0 (strip0 (f_ip f ++ f_fp f)) in
     let e := (f_decpt f - 1)%Z in
@@ -834,23 +843,23 @@ Fixpoint sep_items (sep : list item) (l : list (list item)) : list item :=
   | x :: r => x ++ sep ++ sep_items sep r
   end.
 
-Fixpoint pr_const (c : aconst) : list item :=
+Fixpoint pr_const (g : cfg) (c : aconst) : list item :=
   match c with
   | CString v q => [T (Tok KString (print_string_const v q))]
   | CTimestamp t => [T (Tok KTimestamp (print_ts t))]
   | CInt z => [T (Tok (num_kind (dec_of_Z z) KIntPos KIntNeg) (dec_of_Z z))]
-  | CFloat f => [T (Tok (num_kind (print_float f) KFloatPos KFloatNeg) (print_float f))]
+  | CFloat f => [T (Tok (num_kind (print_float g f) KFloatPos KFloatNeg) (print_float g f))]
   | CBool b => [T (Tok KBool (if b then u "true" else u "false"))]
   | CBinary v => [T (Tok KBinary (u "b'" ++ v ++ [c_quote]))]
   | CHex v => [T (Tok KHex (u "h'" ++ v ++ [c_quote]))]
-  | CList l => [T t_LPAREN] ++ sep_items [T t_COMMA; Sp] (map pr_const l) ++ [T t_RPAREN]
+  | CList l => [T t_LPAREN] ++ sep_items [T t_COMMA; Sp] (map (pr_const g) l) ++ [T t_RPAREN]
   end.
 
 (* str(x) as one text (used where the visitor calls str() on a constant) *)
-Definition str_const (c : aconst) : ustring := text_of (pr_const c).
+Definition str_const (g : cfg) (c : aconst) : ustring := text_of (pr_const g c).
 
-Definition name_tok (name : ustring) : token :=
-  let s := quote_if_needed name in
+Definition name_tok (g : cfg) (name : ustring) : token :=
+  let s := quote_if_needed g name in
   Tok (if starts_with_quote s then KString else KIdent) s.
 
 Definition idx_tok (i : aindex) : token :=
@@ -860,18 +869,18 @@ Definition idx_tok (i : aindex) : token :=
   end.
 
 (* _ObjectPathComponent.__str__, ListObjectPathComponent.__str__ *)
-Definition pr_comp (c : acomp) : list item :=
+Definition pr_comp (g : cfg) (c : acomp) : list item :=
   match c with
-  | ABasic n | ARef n => [T (name_tok n)]
-  | AList n i => [T (name_tok n); T t_LBRACK; T (idx_tok i); T t_RBRACK]
+  | ABasic n | ARef n => [T (name_tok g n)]
+  | AList n i => [T (name_tok g n); T t_LBRACK; T (idx_tok i); T t_RBRACK]
   end.
 
 Definition type_tok (s : ustring) : token :=
   Tok (if mem_N c_hyphen s then KIdentHyphen else KIdent) s.
 
 (* ObjectPath.__str__ *)
-Definition pr_path (p : apath) : list item :=
-  [T (type_tok (ap_type p)); T t_COLON] ++ sep_items [T t_DOT] (map pr_comp (ap_comps p)).
+Definition pr_path (g : cfg) (p : apath) : list item :=
+  [T (type_tok (ap_type p)); T t_COLON] ++ sep_items [T t_DOT] (map (pr_comp g) (ap_comps p)).
 
 (* the operator a _ComparisonExpression stores *)
 Definition cls_operator (c : cmpcls) (rhs : aconst) : token :=
@@ -885,30 +894,30 @@ Definition cls_operator (c : cmpcls) (rhs : aconst) : token :=
 Definition obsop_tok (o : obsop) : token :=
   match o with OpAnd => t_AND | OpOr => t_OR | OpFb => t_FOLLOWEDBY end.
 
-Definition pr_qual (q : aqual) : list item :=
+Definition pr_qual (g : cfg) (q : aqual) : list item :=
   match q with
-  | AQRepeat c => [T t_REPEATS; Sp] ++ pr_const c ++ [Sp; T t_TIMES]
-  | AQWithin c => [T t_WITHIN; Sp] ++ pr_const c ++ [Sp; T t_SECONDS]
-  | AQStartStop a b => [T t_START; Sp] ++ pr_const a ++ [Sp; T t_STOP; Sp] ++ pr_const b
+  | AQRepeat c => [T t_REPEATS; Sp] ++ pr_const g c ++ [Sp; T t_TIMES]
+  | AQWithin c => [T t_WITHIN; Sp] ++ pr_const g c ++ [Sp; T t_SECONDS]
+  | AQStartStop a b => [T t_START; Sp] ++ pr_const g a ++ [Sp; T t_STOP; Sp] ++ pr_const g b
   end.
 
-Fixpoint pr (e : aexpr) : list item :=
+Fixpoint pr (g : cfg) (e : aexpr) : list item :=
   match e with
   | ECmp cls lhs rhs neg =>
-      pr_path lhs ++ [Sp] ++ (if neg then [T t_NOT; Sp] else []) ++ [T (cls_operator cls rhs); Sp] ++ pr_const rhs
-  | EBool isand ops => sep_items [Sp; T (if isand then t_AND else t_OR); Sp] (map pr ops)
+      pr_path g lhs ++ [Sp] ++ (if neg then [T t_NOT; Sp] else []) ++ [T (cls_operator cls rhs); Sp] ++ pr_const g rhs
+  | EBool isand ops => sep_items [Sp; T (if isand then t_AND else t_OR); Sp] (map (pr g) ops)
   | EObs x =>
       match x with
-      | EObs _ | ECompound _ _ => pr x
-      | _ => [T t_LBRACK] ++ pr x ++ [T t_RBRACK]
+      | EObs _ | ECompound _ _ => pr g x
+      | _ => [T t_LBRACK] ++ pr g x ++ [T t_RBRACK]
       end
-  | ECompound op ops => sep_items [Sp; T (obsop_tok op); Sp] (map pr ops)
-  | EParen x => [T t_LPAREN] ++ pr x ++ [T t_RPAREN]
-  | EQualified x q => pr x ++ [Sp] ++ pr_qual q
+  | ECompound op ops => sep_items [Sp; T (obsop_tok op); Sp] (map (pr g) ops)
+  | EParen x => [T t_LPAREN] ++ pr g x ++ [T t_RPAREN]
+  | EQualified x q => pr g x ++ [Sp] ++ pr_qual g q
   end.
 
-Definition print (e : aexpr) : list token := toks_of (pr e).
-Definition print_text (e : aexpr) : ustring := text_of (pr e).
+Definition print (g : cfg) (e : aexpr) : list token := toks_of (pr g e).
+Definition print_text (g : cfg) (e : aexpr) : ustring := text_of (pr g e).
 
 (* ------------------------------------------------------------------ *)
 (** * The visitor *)
@@ -1059,8 +1068,25 @@ Definition m_obs_qualified (cs : list vres) : result vres :=
   x <- expr_of a ;;
   match b with VQual q => Ok (VExpr (EQualified x q) None) | _ => Raise Junk end.
 
+Definition rt_of_v (v : vres) : option (list ustring) :=
+  match v with VExpr _ r => r | _ => None end.
+
 (* visitComparisonExpression *)
-Definition m_cmp_or (cs : list vres) : result vres :=
+(* children[0].operands.append(children[2])  --  or, repaired, add_operand: root_types updated *)
+Definition append_operand (g : cfg) (isand : bool) (ops : list aexpr) (rt : option (list ustring)) (b : vres) : result vres :=
+  if rt_append g then
+    match rt, rt_of_v b with
+    | Some r, Some r' =>
+        let r'' := if isand then set_inter r r' else set_union r r' in
+        match r'' with
+        | [] => Raise ValueError
+        | _ => y <- expr_of b ;; Ok (VExpr (EBool isand (ops ++ [y])) (Some r''))
+        end
+    | _, _ => Raise AttributeError
+    end
+  else y <- expr_of b ;; Ok (VExpr (EBool isand (ops ++ [y])) rt).
+
+Definition m_cmp_or (g : cfg) (cs : list vres) : result vres :=
   if Nat.eqb (List.length cs) 1 then child cs 0
   else
     a <- child cs 0 ;; o <- child cs 1 ;; b <- child cs 2 ;;
@@ -1068,18 +1094,18 @@ Definition m_cmp_or (cs : list vres) : result vres :=
     | VExpr (EBool isand ops) rt =>
         t <- as_tok o ;;
         if ustr_eqb (tx (if isand then t_AND else t_OR)) (tx t)
-        then y <- expr_of b ;; Ok (VExpr (EBool isand (ops ++ [y])) rt)
+        then append_operand g isand ops rt b
         else mk_bool false [a; b]
     | _ => mk_bool false [a; b]
     end.
 
 (* visitComparisonExpressionAnd *)
-Definition m_cmp_and (cs : list vres) : result vres :=
+Definition m_cmp_and (g : cfg) (cs : list vres) : result vres :=
   if Nat.eqb (List.length cs) 1 then child cs 0
   else
     a <- child cs 0 ;; b <- child cs 2 ;;
     match a with
-    | VExpr (EBool isand ops) rt => y <- expr_of b ;; Ok (VExpr (EBool isand (ops ++ [y])) rt)
+    | VExpr (EBool isand ops) rt => append_operand g isand ops rt b
     | _ => mk_bool true [a; b]
     end.
 
@@ -1147,16 +1173,16 @@ Definition property_name (v : vres) : result ustring :=
   end.
 
 (* str(current) *)
-Definition py_str (v : vres) : result ustring :=
+Definition py_str (g : cfg) (v : vres) : result ustring :=
   match v with
-  | VConst c => Ok (str_const c)
+  | VConst c => Ok (str_const g c)
   | VTok t => Ok (tx t)
-  | VComp c => Ok (text_of (pr_comp c))
+  | VComp c => Ok (text_of (pr_comp g c))
   | _ => Raise Junk
   end.
 
 (* the while loop of visitObjectPath *)
-Fixpoint path_loop (flat : list vres) : result (list vres) :=
+Fixpoint path_loop (g : cfg) (flat : list vres) : result (list vres) :=
   match flat with
   | [] => Ok []
   | cur :: tl =>
@@ -1165,29 +1191,30 @@ Fixpoint path_loop (flat : list vres) : result (list vres) :=
       | nxt :: rest =>
           match nxt with
           | VTok t =>
-              n <- property_name cur ;;
-              r <- path_loop rest ;;
+              n <- (if star_quoted g then (match cur with VComp (ABasic n) => Ok n | _ => py_str g cur end)
+                    else property_name cur) ;;
+              r <- path_loop g rest ;;
               Ok (VComp (AList n (IdxStr (tx t))) :: r)
           | VConst (CInt z) =>
-              n <- (match cur with VComp (ABasic n) => Ok n | _ => py_str cur end) ;;
-              r <- path_loop rest ;;
+              n <- (match cur with VComp (ABasic n) => Ok n | _ => py_str g cur end) ;;
+              r <- path_loop g rest ;;
               Ok (VComp (AList n (IdxInt z)) :: r)
-          | _ => r <- path_loop tl ;; Ok (cur :: r)
+          | _ => r <- path_loop g tl ;; Ok (cur :: r)
           end
       end
   end.
 
 (* visitObjectPath *)
-Definition m_object_path (cs : list vres) : result vres :=
-  pp <- path_loop (collapse_lists (skipn 2 cs)) ;;
+Definition m_object_path (g : cfg) (cs : list vres) : result vres :=
+  pp <- path_loop g (collapse_lists (skipn 2 cs)) ;;
   ty <- child cs 0 ;; t <- as_tok ty ;;
   comps <- create_components pp ;;
   Ok (VPath (APath (tx t) comps)).
 
 (* visitFirstPathComponent *)
-Definition m_first_component (cs : list vres) : result vres :=
+Definition m_first_component (g : cfg) (cs : list vres) : result vres :=
   a <- child cs 0 ;;
-  step <- (match a with VTok t => Ok (tx t) | _ => py_str a end) ;;
+  step <- (match a with VTok t => Ok (tx t) | _ => py_str g a end) ;;
   Ok (VComp (ABasic step)).
 
 (* visitIndexPathStep *)
@@ -1213,45 +1240,45 @@ Definition m_set_literal (cs : list vres) : result vres :=
 
 Definition tokv (t : token) : result vres := Ok (VTok t).
 
-Definition v_literal (t : token) : result vres :=
+Definition v_literal (g : cfg) (t : token) : result vres :=
   (* primitiveLiteral : orderableLiteral | BoolLiteral ; orderableLiteral : <one token> *)
   match tk t with
-  | KBool => cs <- visit_children [visit_terminal t] ;; m_first cs
-  | _ => cs <- visit_children [ (cs' <- visit_children [visit_terminal t] ;; m_first cs') ] ;; m_first cs
+  | KBool => cs <- visit_children [visit_terminal g t] ;; m_first cs
+  | _ => cs <- visit_children [ (cs' <- visit_children [visit_terminal g t] ;; m_first cs') ] ;; m_first cs
   end.
 
-Definition v_orderable (t : token) : result vres :=
-  cs <- visit_children [visit_terminal t] ;; m_first cs.
+Definition v_orderable (g : cfg) (t : token) : result vres :=
+  cs <- visit_children [visit_terminal g t] ;; m_first cs.
 
-Definition v_pstep (s : pstep) : result vres :=
+Definition v_pstep (g : cfg) (s : pstep) : result vres :=
   match s with
-  | KeyStep n => cs <- visit_children [tokv t_DOT; visit_terminal n] ;; m_key_step cs
-  | IndexStep i => cs <- visit_children [tokv t_LBRACK; visit_terminal i; tokv t_RBRACK] ;; m_index_step cs
+  | KeyStep n => cs <- visit_children [tokv t_DOT; visit_terminal g n] ;; m_key_step cs
+  | IndexStep i => cs <- visit_children [tokv t_LBRACK; visit_terminal g i; tokv t_RBRACK] ;; m_index_step cs
   end.
 
-Fixpoint v_opc (c : opc) : result vres :=
+Fixpoint v_opc (g : cfg) (c : opc) : result vres :=
   match c with
-  | OStep s => v_pstep s
-  | OPathStep l r => cs <- visit_children [v_opc l; v_pstep r] ;; m_path_step cs
+  | OStep s => v_pstep g s
+  | OPathStep l r => cs <- visit_children [v_opc g l; v_pstep g r] ;; m_path_step cs
   end.
 
-Definition v_path (p : objpath) : result vres :=
+Definition v_path (g : cfg) (p : objpath) : result vres :=
   cs <- visit_children
-          ([ (cs' <- visit_children [visit_terminal (op_type p)] ;; m_first cs');      (* visitObjectType *)
+          ([ (cs' <- visit_children [visit_terminal g (op_type p)] ;; m_first cs');      (* visitObjectType *)
              tokv t_COLON;
-             (cs' <- visit_children [visit_terminal (op_first p)] ;; m_first_component cs') ]
-           ++ match op_rest p with Some c => [v_opc c] | None => [] end) ;;
-  m_object_path cs.
+             (cs' <- visit_children [visit_terminal g (op_first p)] ;; m_first_component g cs') ]
+           ++ match op_rest p with Some c => [v_opc g c] | None => [] end) ;;
+  m_object_path g cs.
 
-Fixpoint v_set_children (l : list token) : list (result vres) :=
+Fixpoint v_set_children (g : cfg) (l : list token) : list (result vres) :=
   match l with
   | [] => []
-  | [x] => [v_literal x]
-  | x :: r => v_literal x :: tokv t_COMMA :: v_set_children r
+  | [x] => [v_literal g x]
+  | x :: r => v_literal g x :: tokv t_COMMA :: v_set_children g r
   end.
 
-Definition v_set (es : list token) : result vres :=
-  cs <- visit_children ([tokv t_LPAREN] ++ v_set_children es ++ [tokv t_RPAREN]) ;; m_set_literal cs.
+Definition v_set (g : cfg) (es : list token) : result vres :=
+  cs <- visit_children ([tokv t_LPAREN] ++ v_set_children g es ++ [tokv t_RPAREN]) ;; m_set_literal cs.
 
 Definition optnot_children (nt : bool) : list (result vres) := if nt then [tokv t_NOT] else [].
 
@@ -1263,38 +1290,38 @@ Definition strop_flag (g : cfg) (o : strop) : bool :=
 Fixpoint v_pt (g : cfg) (p : proptest) : result vres :=
   match p with
   | PTEqual p nt op l =>
-      cs <- visit_children ([v_path p] ++ optnot_children nt ++ [tokv op; v_literal l]) ;; m_pt_equal g cs
+      cs <- visit_children ([v_path g p] ++ optnot_children nt ++ [tokv op; v_literal g l]) ;; m_pt_equal g cs
   | PTOrder p nt op l =>
-      cs <- visit_children ([v_path p] ++ optnot_children nt ++ [tokv op; v_orderable l]) ;; m_pt_order g cs
+      cs <- visit_children ([v_path g p] ++ optnot_children nt ++ [tokv op; v_orderable g l]) ;; m_pt_order g cs
   | PTSet p nt es =>
-      cs <- visit_children ([v_path p] ++ optnot_children nt ++ [tokv t_IN; v_set es]) ;; m_pt_simple KlIn (neg_set g) cs
+      cs <- visit_children ([v_path g p] ++ optnot_children nt ++ [tokv t_IN; v_set g es]) ;; m_pt_simple KlIn (neg_set g) cs
   | PTStr o p nt s =>
-      cs <- visit_children ([v_path p] ++ optnot_children nt ++ [tokv (strop_tok o); visit_terminal s]) ;;
+      cs <- visit_children ([v_path g p] ++ optnot_children nt ++ [tokv (strop_tok o); visit_terminal g s]) ;;
       m_pt_simple (strop_cls o) (strop_flag g o) cs
   | PTParen e =>
       cs <- visit_children [tokv t_LPAREN; v_or g e; tokv t_RPAREN] ;; m_pt_paren cs
   | PTExists nt p =>
-      cs <- visit_children (optnot_children nt ++ [tokv t_EXISTS; v_path p]) ;; m_pt_exists cs
+      cs <- visit_children (optnot_children nt ++ [tokv t_EXISTS; v_path g p]) ;; m_pt_exists cs
   end
 with v_and (g : cfg) (a : cmpand) : result vres :=
   match a with
-  | CAndBase p => cs <- visit_children [v_pt g p] ;; m_cmp_and cs
+  | CAndBase p => cs <- visit_children [v_pt g p] ;; m_cmp_and g cs
   | CAnd l r =>
       (* the right operand is a comparisonExpressionAnd node with the single child propTest *)
-      cs <- visit_children [v_and g l; tokv t_AND; (cs' <- visit_children [v_pt g r] ;; m_cmp_and cs')] ;; m_cmp_and cs
+      cs <- visit_children [v_and g l; tokv t_AND; (cs' <- visit_children [v_pt g r] ;; m_cmp_and g cs')] ;; m_cmp_and g cs
   end
 with v_or (g : cfg) (o : cmpor) : result vres :=
   match o with
-  | COrBase a => cs <- visit_children [v_and g a] ;; m_cmp_or cs
+  | COrBase a => cs <- visit_children [v_and g a] ;; m_cmp_or g cs
   | COr l r =>
-      cs <- visit_children [v_or g l; tokv t_OR; (cs' <- visit_children [v_and g r] ;; m_cmp_or cs')] ;; m_cmp_or cs
+      cs <- visit_children [v_or g l; tokv t_OR; (cs' <- visit_children [v_and g r] ;; m_cmp_or g cs')] ;; m_cmp_or g cs
   end.
 
 Definition v_qual (g : cfg) (q : qual) : result vres :=
   match q with
-  | QStartStop a b => cs <- visit_children [tokv t_START; visit_terminal a; tokv t_STOP; visit_terminal b] ;; m_startstop cs
-  | QWithin n => cs <- visit_children [tokv t_WITHIN; visit_terminal n; tokv t_SECONDS] ;; m_within g cs
-  | QRepeat n => cs <- visit_children [tokv t_REPEATS; visit_terminal n; tokv t_TIMES] ;; m_repeat cs
+  | QStartStop a b => cs <- visit_children [tokv t_START; visit_terminal g a; tokv t_STOP; visit_terminal g b] ;; m_startstop cs
+  | QWithin n => cs <- visit_children [tokv t_WITHIN; visit_terminal g n; tokv t_SECONDS] ;; m_within g cs
+  | QRepeat n => cs <- visit_children [tokv t_REPEATS; visit_terminal g n; tokv t_TIMES] ;; m_repeat cs
   end.
 
 Fixpoint v_obs (g : cfg) (o : obs) : result vres :=
@@ -1340,23 +1367,23 @@ Definition visit (g : cfg) (p : pattern) : result aexpr :=
     context needs (total upwards, partial downwards: a looser expression in a
     tighter position has no parse tree without parentheses).                *)
 
-Definition tok_of_const (c : aconst) : option token :=
-  match pr_const c with [T t] => Some t | _ => None end.
+Definition tok_of_const (g : cfg) (c : aconst) : option token :=
+  match pr_const g c with [T t] => Some t | _ => None end.
 
-Fixpoint toks_of_consts (l : list aconst) : option (list token) :=
+Fixpoint toks_of_consts (g : cfg) (l : list aconst) : option (list token) :=
   match l with
   | [] => Some []
-  | c :: r => match tok_of_const c, toks_of_consts r with
+  | c :: r => match tok_of_const g c, toks_of_consts g r with
               | Some t, Some ts => Some (t :: ts) | _, _ => None end
   end.
 
 Definition pstep_of_idx (i : aindex) : pstep := IndexStep (idx_tok i).
 
 (* the path steps one component contributes after the first position *)
-Definition psteps_of_comp (c : acomp) : list pstep :=
+Definition psteps_of_comp (g : cfg) (c : acomp) : list pstep :=
   match c with
-  | ABasic n | ARef n => [KeyStep (name_tok n)]
-  | AList n i => [KeyStep (name_tok n); pstep_of_idx i]
+  | ABasic n | ARef n => [KeyStep (name_tok g n)]
+  | AList n i => [KeyStep (name_tok g n); pstep_of_idx i]
   end.
 
 Fixpoint opc_snoc (acc : opc) (l : list pstep) : opc :=
@@ -1364,16 +1391,16 @@ Fixpoint opc_snoc (acc : opc) (l : list pstep) : opc :=
 Definition opc_of_steps (l : list pstep) : option opc :=
   match l with [] => None | s :: r => Some (opc_snoc (OStep s) r) end.
 
-Definition unv_path (p : apath) : option objpath :=
+Definition unv_path (g : cfg) (p : apath) : option objpath :=
   match ap_comps p with
   | [] => None
   | c :: r =>
       let first_steps := match c with
-                         | ABasic n | ARef n => (name_tok n, [])
-                         | AList n i => (name_tok n, [pstep_of_idx i])
+                         | ABasic n | ARef n => (name_tok g n, [])
+                         | AList n i => (name_tok g n, [pstep_of_idx i])
                          end in
       Some (ObjPath (type_tok (ap_type p)) (fst first_steps)
-                    (opc_of_steps (snd first_steps ++ flat_map psteps_of_comp r)))
+                    (opc_of_steps (snd first_steps ++ flat_map (psteps_of_comp g) r)))
   end.
 
 Inductive anycmp := AC_pt (p : proptest) | AC_and (a : cmpand) | AC_or (o : cmpor).
@@ -1404,31 +1431,31 @@ Definition lift_obs (o : anyobs) : option obs :=
 Definition as_cmp (x : option ucst) : option anycmp := match x with Some (UCmp c) => Some c | _ => None end.
 Definition as_obs (x : option ucst) : option anyobs := match x with Some (UObs c) => Some c | _ => None end.
 
-Definition unv_cmp (cls : cmpcls) (lhs : apath) (rhs : aconst) (neg : bool) : option proptest :=
-  match unv_path lhs with
+Definition unv_cmp (g : cfg) (cls : cmpcls) (lhs : apath) (rhs : aconst) (neg : bool) : option proptest :=
+  match unv_path g lhs with
   | None => None
   | Some p =>
       match cls, rhs with
       | KlEq, CList l | KlIn, CList l =>
-          match toks_of_consts l with Some ts => Some (PTSet p neg ts) | None => None end
-      | KlEq, _ => match tok_of_const rhs with Some t => Some (PTEqual p neg t_EQ t) | None => None end
-      | KlGt, _ => match tok_of_const rhs with Some t => Some (PTOrder p neg t_GT t) | None => None end
-      | KlLt, _ => match tok_of_const rhs with Some t => Some (PTOrder p neg t_LT t) | None => None end
-      | KlGe, _ => match tok_of_const rhs with Some t => Some (PTOrder p neg t_GE t) | None => None end
-      | KlLe, _ => match tok_of_const rhs with Some t => Some (PTOrder p neg t_LE t) | None => None end
-      | KlLike, _ => match tok_of_const rhs with Some t => Some (PTStr SLike p neg t) | None => None end
-      | KlMatches, _ => match tok_of_const rhs with Some t => Some (PTStr SRegex p neg t) | None => None end
-      | KlSubset, _ => match tok_of_const rhs with Some t => Some (PTStr SIsSubset p neg t) | None => None end
-      | KlSuperset, _ => match tok_of_const rhs with Some t => Some (PTStr SIsSuperset p neg t) | None => None end
+          match toks_of_consts g l with Some ts => Some (PTSet p neg ts) | None => None end
+      | KlEq, _ => match tok_of_const g rhs with Some t => Some (PTEqual p neg t_EQ t) | None => None end
+      | KlGt, _ => match tok_of_const g rhs with Some t => Some (PTOrder p neg t_GT t) | None => None end
+      | KlLt, _ => match tok_of_const g rhs with Some t => Some (PTOrder p neg t_LT t) | None => None end
+      | KlGe, _ => match tok_of_const g rhs with Some t => Some (PTOrder p neg t_GE t) | None => None end
+      | KlLe, _ => match tok_of_const g rhs with Some t => Some (PTOrder p neg t_LE t) | None => None end
+      | KlLike, _ => match tok_of_const g rhs with Some t => Some (PTStr SLike p neg t) | None => None end
+      | KlMatches, _ => match tok_of_const g rhs with Some t => Some (PTStr SRegex p neg t) | None => None end
+      | KlSubset, _ => match tok_of_const g rhs with Some t => Some (PTStr SIsSubset p neg t) | None => None end
+      | KlSuperset, _ => match tok_of_const g rhs with Some t => Some (PTStr SIsSuperset p neg t) | None => None end
       | KlIn, _ => None
       end
   end.
 
-Definition unv_qual (q : aqual) : option qual :=
+Definition unv_qual (g : cfg) (q : aqual) : option qual :=
   match q with
-  | AQRepeat c => match tok_of_const c with Some t => Some (QRepeat t) | None => None end
-  | AQWithin c => match tok_of_const c with Some t => Some (QWithin t) | None => None end
-  | AQStartStop a b => match tok_of_const a, tok_of_const b with
+  | AQRepeat c => match tok_of_const g c with Some t => Some (QRepeat t) | None => None end
+  | AQWithin c => match tok_of_const g c with Some t => Some (QWithin t) | None => None end
+  | AQStartStop a b => match tok_of_const g a, tok_of_const g b with
                        | Some x, Some y => Some (QStartStop x y) | _, _ => None end
   end.
 
@@ -1464,12 +1491,12 @@ Fixpoint chain_fb (acc : obsfb) (l : list (option anyobs)) : option obsfb :=
   | None :: _ => None
   end.
 
-Fixpoint unv (e : aexpr) : option ucst :=
+Fixpoint unv (g : cfg) (e : aexpr) : option ucst :=
   match e with
   | ECmp cls lhs rhs neg =>
-      match unv_cmp cls lhs rhs neg with Some p => Some (UCmp (AC_pt p)) | None => None end
+      match unv_cmp g cls lhs rhs neg with Some p => Some (UCmp (AC_pt p)) | None => None end
   | EBool isand ops =>
-      match map (fun x => as_cmp (unv x)) ops with
+      match map (fun x => as_cmp (unv g x)) ops with
       | Some first :: ((_ :: _) as rest) =>
           if isand then
             match lift_and first with
@@ -1481,12 +1508,12 @@ Fixpoint unv (e : aexpr) : option ucst :=
       | _ => None
       end
   | EObs x =>
-      match as_cmp (unv x) with
+      match as_cmp (unv g x) with
       | Some c => Some (UObs (AO_obs (OSimple (lift_or c))))
       | None => None
       end
   | ECompound op ops =>
-      match map (fun x => as_obs (unv x)) ops with
+      match map (fun x => as_obs (unv g x)) ops with
       | Some first :: ((_ :: _) as rest) =>
           match op with
           | OpAnd => match lift_oand first with
@@ -1500,20 +1527,20 @@ Fixpoint unv (e : aexpr) : option ucst :=
       | _ => None
       end
   | EParen x =>
-      match unv x with
+      match unv g x with
       | Some (UCmp c) => Some (UCmp (AC_pt (PTParen (lift_or c))))
       | Some (UObs o) => Some (UObs (AO_obs (OCompound (lift_fb o))))
       | None => None
       end
   | EQualified x q =>
-      match as_obs (unv x), unv_qual q with
+      match as_obs (unv g x), unv_qual g q with
       | Some o, Some q' => match lift_obs o with Some o' => Some (UObs (AO_obs (OQual o' q'))) | None => None end
       | _, _ => None
       end
   end.
 
-Definition unvisit (e : aexpr) : option pattern :=
-  match unv e with Some (UObs o) => Some (lift_fb o) | _ => None end.
+Definition unvisit (g : cfg) (e : aexpr) : option pattern :=
+  match unv g e with Some (UObs o) => Some (lift_fb o) | _ => None end.
 
 (* ------------------------------------------------------------------ *)
 (** * Meaning: what a pattern says, as one explicit tree
@@ -1662,19 +1689,19 @@ Fixpoint ma_const (c : aconst) : mconst :=
   end.
 
 (* a component's name is read the way it prints *)
-Definition ma_name (n : ustring) : ustring := m_name_text (quote_if_needed n).
+Definition ma_name (g : cfg) (n : ustring) : ustring := m_name_text (quote_if_needed g n).
 Definition ma_idx (i : aindex) : mstep :=
   match i with
   | IdxInt z => MIndex z
   | IdxStr s => if ustr_eqb s (u "*") then MStar
                 else match py_int s with Some z => MIndex z | None => MBadStep end
   end.
-Definition ma_comp (c : acomp) : list mstep :=
+Definition ma_comp (g : cfg) (c : acomp) : list mstep :=
   match c with
-  | ABasic n | ARef n => [MKey (ma_name n)]
-  | AList n i => [MKey (ma_name n); ma_idx i]
+  | ABasic n | ARef n => [MKey (ma_name g n)]
+  | AList n i => [MKey (ma_name g n); ma_idx i]
   end.
-Definition ma_path (p : apath) : mpath := MPath (ap_type p) (flat_map ma_comp (ap_comps p)).
+Definition ma_path (g : cfg) (p : apath) : mpath := MPath (ap_type p) (flat_map (ma_comp g) (ap_comps p)).
 
 Definition ma_op (cls : cmpcls) (rhs : aconst) : mop :=
   match cls with
@@ -1698,23 +1725,23 @@ Definition splice_first (same : mexpr -> option (list mexpr)) (l : list mexpr) :
   | [] => []
   end.
 
-Fixpoint ma (e : aexpr) : mexpr :=
+Fixpoint ma (g : cfg) (e : aexpr) : mexpr :=
   match e with
-  | ECmp cls lhs rhs neg => MCmp (ma_path lhs) (ma_op cls rhs) neg (ma_const rhs)
+  | ECmp cls lhs rhs neg => MCmp (ma_path g lhs) (ma_op cls rhs) neg (ma_const rhs)
   | EBool isand ops =>
       MBoolOp isand (splice_first (fun m => match m with
                                             | MBoolOp b xs => if Bool.eqb b isand then Some xs else None
-                                            | _ => None end) (map ma ops))
-  | EObs x => match x with EObs _ | ECompound _ _ => ma x | _ => MObs (ma x) end
+                                            | _ => None end) (map (ma g) ops))
+  | EObs x => match x with EObs _ | ECompound _ _ => ma g x | _ => MObs (ma g x) end
   | ECompound op ops =>
       MObsOp op (splice_first (fun m => match m with
                                         | MObsOp o xs => if match o, op with
                                                             | OpAnd, OpAnd | OpOr, OpOr | OpFb, OpFb => true
                                                             | _, _ => false end
                                                          then Some xs else None
-                                        | _ => None end) (map ma ops))
-  | EParen x => MParen (ma x)
-  | EQualified x q => MQualified (ma x) (ma_qual q)
+                                        | _ => None end) (map (ma g) ops))
+  | EParen x => MParen (ma g x)
+  | EQualified x q => MQualified (ma g x) (ma_qual q)
   end.
 
-Definition meaning_ast (e : aexpr) : mexpr := ma e.
+Definition meaning_ast (g : cfg) (e : aexpr) : mexpr := ma g e.
